@@ -250,6 +250,11 @@ class Interp:
             value = VNum("bool", T.app("cmp_NotEq", value.term, T.ZERO))  # truthiness of a number
         if self.sticky:
             skey = (self.site(node), desc or (ast.unparse(node) if node is not None else "?"))
+            ops_ = getattr(value, "operands", None)
+            if ops_ is not None and getattr(value, "tag", None) in ("cmp", "shape-eq"):
+                # an equality test of two values: asked of other values (the kept key against the key of a later call) it is
+                # another question, not the same branch taken again
+                skey = skey + (("values", id(ops_[0]), id(ops_[1])),)
             if self.sticky == "term" and isinstance(value, VNum) and value.term is not None:
                 # finer partition: the same branch site asked about a *different value* (another matrix, another row) is another decision
                 skey = skey + (_cond_key(value.term)[0],)
